@@ -344,7 +344,7 @@ func (e *mvEnv) judge(label string, m *nom.Momentum, blocks []*nom.AccountBlock)
 		if err != nil || *exp != producer {
 			c.Fail("mverify: accepted momentum signed by %v, a cold consensus instance elects %v (err %v) for its slot; %s", producer, exp, err, what)
 		}
-		if label != "valid" && label != "valid-next-slot" && label != "valid-skip" && label != "fork-sibling" && label != "replay-frontier" {
+		if label != "valid" && label != "valid-next-slot" && label != "valid-content-reordered" && label != "fork-sibling" && label != "replay-frontier" {
 			c.Fail("mverify: a mutated momentum was accepted; %s", what)
 		}
 	} else if label == "valid" || label == "valid-next-slot" {
@@ -467,9 +467,23 @@ func (e *mvEnv) round(gapSlots int64) {
 			e.rehashSign(m, K)
 		})
 		if len(v.Content) > 1 {
-			add("content-swap+resign", func(m *nom.Momentum) {
-				ct := append(nom.MomentumContent(nil), m.Content...)
-				ct[0], ct[len(ct)-1] = ct[len(ct)-1], ct[0]
+			// first and last header exchanged: still a valid momentum iff no account's own blocks change their relative
+			// order (the pillar is free to order blocks of different accounts)
+			ct := append(nom.MomentumContent(nil), v.Content...)
+			ct[0], ct[len(ct)-1] = ct[len(ct)-1], ct[0]
+			keeps := true
+			last := map[types.Address]uint64{}
+			for _, h := range ct {
+				if prevH, ok := last[h.Address]; ok && h.Height <= prevH {
+					keeps = false
+				}
+				last[h.Address] = h.Height
+			}
+			lbl := "content-swap+resign"
+			if keeps {
+				lbl = "valid-content-reordered"
+			}
+			add(lbl, func(m *nom.Momentum) {
 				m.Content = ct
 				e.rehashSign(m, K)
 			})
